@@ -43,6 +43,8 @@ def _case(draw):
         "Fi": [draw(st.integers(1, 20)) for _ in range(3)] if ints and draw(st.booleans()) else [draw(gen.log_uniform(-2, 4)) for _ in range(3)],
         # reference strains at which the same law object was evaluated before (one object serves all quadrature points)
         "warm": [draw(gen.vec3(-1, 1, allow_zero=False)) for _ in range(draw(st.integers(0, 2)))],
+        # the caller re-uses its stiffness arrays after constructing the law (scales them in place for the next material)
+        "reuse_arrays": draw(st.sampled_from([None, None, None, 0.25, 3.0])),
         "G": draw(gen.vec3(-2, 2, allow_zero=False)),
         "G0": draw(st.one_of(gen.vec3(-2, 2, allow_zero=False), st.just([1.0, 0.0, 0.0]))),
         "K": draw(gen.vec3(-2, 2)),
@@ -69,7 +71,17 @@ def check(spec):
     Ei = np.array(spec["Ei"])  # integer lists give integer-typed arrays, as in the repository's scripts
     Fi = np.array(spec["Fi"])
     law = getattr(mm, spec["law"])(Ei, Fi)
+    if spec.get("reuse_arrays") and Ei.dtype == float and Fi.dtype == float:
+        Ei *= spec["reuse_arrays"]
+        Fi *= spec["reuse_arrays"]
+        Ei, Fi = np.array(spec["Ei"], dtype=float), np.array(spec["Fi"], dtype=float)
     Ei, Fi = Ei.astype(float), Fi.astype(float)
+    held = []  # (name, returned array, copy at return time): results must not alias buffers that later calls overwrite
+
+    def keep(name, arr):
+        if isinstance(arr, np.ndarray):
+            held.append((name, arr, arr.copy()))
+        return arr
     G, G0, K, K0 = (np.array(spec[k], dtype=float) for k in ("G", "G0", "K", "K0"))
     for Gw in spec.get("warm", []):
         Gw = np.array(Gw, dtype=float)
@@ -84,8 +96,10 @@ def check(spec):
     hK = 1e-3 * sK
 
     W = lambda g, k: law.potential(g, G0, k, K0)
-    n = law.B_n(G, G0, K, K0)
-    m = law.B_m(G, G0, K, K0)
+    n = keep("B_n", law.B_n(G, G0, K, K0))
+    m = keep("B_m", law.B_m(G, G0, K, K0))
+    for nm in ("B_n_B_Gamma", "B_n_B_Kappa", "B_m_B_Gamma", "B_m_B_Kappa"):
+        keep(nm, getattr(law, nm)(G, G0, K, K0))
     # differencing the *sum* of both energy parts: the round-off of the larger part, ulp(W)/h, must stay two
     # orders below the tolerance, otherwise the comparison is inconclusive (never a violation)
     W0 = abs(W(G, K))
@@ -137,6 +151,16 @@ def check(spec):
         e = max(np.max(np.abs(law.C_n_inv @ n - (G - G0))) / sG, np.max(np.abs(law.C_m_inv @ m - (K - K0))) / sK)
         if e > 1e-11 * (Emax / Ei.min() + Fmax / Fi.min()):
             res.fail("legendre", site + ".compliance_recovers_strain", e, feats)
+
+    # results handed out earlier keep their values when the law is evaluated again elsewhere
+    G2, K2 = 0.7 * G + 0.1 * nG, K - 0.3 * sK
+    for nm in ("B_n", "B_m", "B_n_B_Gamma", "B_n_B_Kappa", "B_m_B_Gamma", "B_m_B_Kappa"):
+        getattr(law, nm)(G2, G0, K2, K0)
+    res.ok()
+    for nm, arr, cp in held:
+        if not np.array_equal(arr, cp):
+            res.fail("returned_value_overwritten_by_later_call", site + "." + nm, float(np.max(np.abs(arr - cp))), feats)
+            break
 
     cosang = abs(G @ G0) / (nG * nG0)
     res.nontrivial = abs(nG0 - 1.0) > 0.05 and cosang < 0.999
